@@ -27,6 +27,7 @@ class Hist:
         self.t = T0 + rng.below(10 ** 5) * 4
         self.allow_dups = allow_dups
         self.used = set()
+        self.retry = None
 
     def stamp(self):
         rng = self.rng
@@ -45,7 +46,22 @@ class Hist:
         return ''.join('%02x' % self.rng.below(256) for _ in range(self.rng.range(0, 6))) or '-'
 
     def request(self, fail_ok=True):
+        r = self._request(fail_ok)
+        # a request that was made to fail is often retried unchanged by the caller
+        base = r.split(' w=')[0].replace(' fail', '')
+        self.retry = base if base != r else None
+        return r
+
+    def batch_stamps(self, n):
+        """`put_many` / `del_many` stamp a whole batch with ONE timestamp; repair batches carry individual ones."""
+        if n and self.rng.chance(1, 2):
+            return [self.stamp()] * n
+        return [self.stamp() for _ in range(n)]
+
+    def _request(self, fail_ok=True):
         rng = self.rng
+        if self.retry is not None and rng.chance(1, 2):
+            return self.retry
         m = rng.below(12)
         src = rng.below(2)
         suffix = ''
@@ -58,14 +74,14 @@ class Hist:
         if m < 8:
             n = rng.range(0, 6)
             ids = [rng.choice(self.ids) for _ in range(n)] if self.allow_dups else rng.shuffle(self.ids)[:n]
-            docs = ['%d:%d:%s' % (i, self.stamp(), self.data()) for i in ids]
+            docs = ['%d:%d:%s' % (i, st, self.data()) for i, st in zip(ids, self.batch_stamps(len(ids)))]
             if fail_ok and rng.chance(1, 3):
                 suffix = ' w=' + (','.join(str(j) for j in range(len(docs)) if rng.chance(1, 2)) or '-')
             return 'mset %d %s%s' % (src, ','.join(docs) or '-', suffix)
         if m < 10:
             n = rng.range(0, 5)
             ids = [rng.choice(self.ids) for _ in range(n)] if self.allow_dups else rng.shuffle(self.ids)[:n]
-            docs = ['%d:%d' % (i, self.stamp()) for i in ids]
+            docs = ['%d:%d' % (i, st) for i, st in zip(ids, self.batch_stamps(len(ids)))]
             if fail_ok and rng.chance(1, 3):
                 suffix = ' w=' + (','.join(str(j) for j in range(len(docs)) if rng.chance(1, 2)) or '-')
             return 'mdel %d %s%s' % (src, ','.join(docs) or '-', suffix)
